@@ -112,11 +112,11 @@ def modfile():
     return f'{WS}/harness.mod'
 
 
-def go_build(target, tags='verif'):
+def go_build(target, tags='verif', flags=()):
     """(Re)build a harness command against REPO's current working tree."""
     mf = modfile()
     tmp = f'{BIN}/.{target}.{os.getpid()}'
-    rc, out, dt = sh(['go', 'build', '-modfile', mf, '-tags', tags, '-o', tmp, f'./cmd/{target}'],
+    rc, out, dt = sh(['go', 'build', '-modfile', mf, '-tags', tags] + list(flags) + ['-o', tmp, f'./cmd/{target}'],
                      timeout=1800, env=GOENV, cwd=HARNESS)
     if rc == 0:
         os.replace(tmp, f'{BIN}/{target}')
